@@ -20,7 +20,7 @@ func init() {
 				"(nocache) every AppDB loader caches only non-empty reads, so records written behind the caches by Restore on a fresh node are seen afterwards; (dirty) C09.dirty, because a restarted producer with a stale emission record would snapshot different contents. " +
 				"NOT decided: IAVL export/import, chunking/compression, behaviour of later blocks.",
 			Assumptions: stdAssumptions,
-			Rules:       []string{"C29.records", "C29.wg", "C29.nocache", "C29.dirty", "C29.fromdisk", "C29.fallback", "C29.leaf"},
+			Rules:       []string{"C29.records", "C29.wg", "C29.nocache", "C29.dirty", "C29.fromdisk", "C29.fallback", "C29.leaf", "C29.rebuild"},
 		},
 		Run: runC29,
 	})
@@ -29,6 +29,7 @@ func init() {
 func runC29(c *core.Ctx) {
 	defer checkLeafValues(c, "C29.leaf")
 	f := loadAppDB(c)
+	defer checkRebuildAfterRestore(c, "C29.rebuild", f)
 	if f == nil {
 		c.Unk("C29.records", "appdb.AppDB", token.NoPos, "type not found")
 		return
@@ -764,4 +765,97 @@ func heightNonZero(h ssa.Value, nonzero []ssa.Value) bool {
 		}
 	}
 	return false
+}
+
+// checkRebuildAfterRestore — C29.rebuild. A node that joins by state sync constructs its Blockchain
+// object on an EMPTY app DB; the snapshot is restored afterwards and only initState() (called from
+// the first BeginBlock) runs again. A field of Blockchain whose value comes from a record of the
+// app DB must therefore be assigned in initState (or in a helper only it calls): assigned in the
+// constructor alone it keeps, on the synced node, the value of the empty DB — e.g. height 0, so
+// that every transaction of the first block is executed "at block 1" on that node only.
+func checkRebuildAfterRestore(c *core.Ctx, rule string, f *appDBFacts) {
+	bt := c.Named("coreV2/minter", "Blockchain")
+	ctor := c.Fn("coreV2/minter.NewMinterBlockchain")
+	init := c.Fn("(*coreV2/minter.Blockchain).initState")
+	if bt == nil || ctor == nil || init == nil || f == nil {
+		c.Unk(rule, "shape", token.NoPos, "Blockchain / NewMinterBlockchain / initState not found")
+		return
+	}
+	// AppDB methods that read a record
+	readers := map[*ssa.Function]bool{}
+	for _, a := range f.Accesses {
+		if !a.Write {
+			readers[a.Fn] = true
+		}
+	}
+	for round := 0; round < 2; round++ {
+		for _, m := range f.Methods {
+			for _, s := range core.Sites(m) {
+				if h := s.Common.StaticCallee(); h != nil && readers[h] {
+					readers[m] = true
+				}
+			}
+		}
+	}
+	fromRecord := func(v ssa.Value) string {
+		name := ""
+		core.DependsOn(v, func(x ssa.Value) bool {
+			if call, ok := x.(*ssa.Call); ok {
+				if h := call.Call.StaticCallee(); h != nil && readers[h] {
+					name = h.Name()
+				}
+			}
+			return false
+		})
+		return name
+	}
+	inInit := map[string]bool{}
+	for _, g := range append([]*ssa.Function{init}, c.Helpers(init)...) {
+		for _, b := range g.Blocks {
+			for _, in := range b.Instrs {
+				var addr ssa.Value
+				switch x := in.(type) {
+				case *ssa.Store:
+					addr = x.Addr
+				case *ssa.Call:
+					if n := core.CalleeName(&x.Call); strings.HasPrefix(n, "sync/atomic.Store") && len(x.Call.Args) == 2 {
+						addr = x.Call.Args[0]
+					}
+				}
+				if fa, ok := addr.(*ssa.FieldAddr); ok && namedOf(fa.X.Type()) == bt {
+					inInit[fieldNameOf(fa)] = true
+				}
+			}
+		}
+	}
+	n := 0
+	seenInit := 0
+	for fld := range inInit {
+		_ = fld
+		seenInit++
+	}
+	for _, g := range append([]*ssa.Function{ctor}, c.Helpers(ctor)...) {
+		for _, b := range g.Blocks {
+			for _, in := range b.Instrs {
+				st, ok := in.(*ssa.Store)
+				if !ok {
+					continue
+				}
+				fa, ok := st.Addr.(*ssa.FieldAddr)
+				if !ok || namedOf(fa.X.Type()) != bt {
+					continue
+				}
+				n++
+				rec := fromRecord(st.Val)
+				if rec == "" {
+					continue
+				}
+				fld := fieldNameOf(fa)
+				c.Check(inInit[fld], rule, "Blockchain."+fld, st.Pos(), "taken from the app DB ("+rec+") in the constructor and assigned again by initState",
+					"Blockchain."+fld+" is read from the app DB ("+rec+") in the constructor only: a node that restores a snapshot afterwards keeps the value of the empty DB — initState, the only thing that runs again, does not assign it")
+			}
+		}
+	}
+	c.Floor(rule, n, 12, "fields assigned by the Blockchain constructor")
+	c.Floor(rule, seenInit, 3, "fields assigned by initState")
 }
